@@ -1541,6 +1541,13 @@ def monitor_call(w, call, where):
                 if overlaps(ca, ia):
                     return Failure("oracle", f"{where} {call.name}: the callee keeps a reference into caller "
                                    f"argument `{a.name}` (layout {a.layout}) at {path}"), exc
+    # (2b) ... nor is a list the caller passed kept as the very same object
+    for a in call.args:
+        if isinstance(a.obj, list) and id(a.obj) in conts:
+            path = conts[id(a.obj)]
+            return Failure("oracle", f"{where} {call.name}: the callee keeps the caller's list `{a.name}` itself "
+                           f"(the same object) at {path}",
+                           key="D42-sba-buffer-keeps-list-argument" if "_buffer._queue" in path else None), exc
     # (3) returned arrays: read-only, or disjoint from everything internal
     if res is not None:
         f = check_outputs(call, res, ints, conts, where, "ret")
